@@ -262,6 +262,41 @@ def rules(ck, P):
             ok2 = bool(tups) and all(ir.local_hid(t["es"][0]) == ch for t in tups)
         ck.check(ok2, "R-DEFAULT", b["q"] + "|pairs", "each emitted pair carries the coordinate that was looked up", "emitted coordinate is not the looked-up coordinate", ir.loc(b))
 
+    # ---------------- R-AGREE: what the stream clips by, the lookup guards by (and vice versa)
+    from . import comp
+    n_pairs = 0
+    for fq in E:
+        b = P.fn(fq)
+        if b.get("trait_default_of") or not b.get("self_adt"):
+            continue
+        look = [x for x in P.bodies if x.get("self_adt") == b["self_adt"] and x.get("trait_item", "").endswith(("TilesReaderTrait::get_tile_data", "OperationTrait::get_tile_data"))
+                and x.get("trait_item", "").rsplit("::", 2)[-2] == b.get("trait_item", "").rsplit("::", 2)[-2]]
+        if not look:
+            continue
+        n_pairs += 1
+        lk = look[0]
+        S, G = {}, {}
+        lets_s, lets_l = comp.lets_of(b), comp.lets_of(lk)
+        for n in ir.walk_nodes(b["body"]):
+            if n.get("k") == "mcall" and n.get("name") in ("intersect_pyramid", "intersect_bbox") and n.get("a"):
+                pl = comp.deep_place(n["a"][0], lets_s)
+                if pl.startswith("self."):
+                    S[pl] = n
+        for n in ir.walk_nodes(lk["body"]):
+            if n.get("k") == "mcall" and n.get("name") in ("contains_coord", "contains3", "contains") and "TileBBox" in (n.get("q") or ""):
+                pl = comp.deep_place(n["recv"], lets_l)
+                if pl.startswith("self."):
+                    G[pl] = n
+        short = b["self_adt"].rsplit("::", 2)[-2] + "::" + b["self_adt"].rsplit("::", 1)[-1]
+        extra_s = sorted(set(S) - set(G))
+        extra_g = sorted(set(G) - set(S))
+        ck.check(not extra_s, "R-AGREE", fq + "|stream-clip-has-lookup-guard", "%s: every coverage the stream clips the box by (%s) also guards the lookup" % (short, sorted(S) or "none"),
+                 "the stream clips the requested box by %s but the lookup of the same type returns tiles outside it: the stream delivers fewer tiles than the lookups" % extra_s,
+                 ir.loc(S[extra_s[0]]) if extra_s else ir.loc(b))
+        ck.check(not extra_g, "R-AGREE", fq + "|lookup-guard-has-stream-clip", "%s: every coverage guarding the lookup (%s) also clips the stream" % (short, sorted(G) or "none"),
+                 "the lookup is guarded by %s but the stream is not clipped by it: the stream delivers tiles the lookups do not" % extra_g,
+                 ir.loc(G[extra_g[0]]) if extra_g else ir.loc(lk))
+    ck.anchor("R-AGREE", "types implementing both lookup and stream", list(range(n_pairs)), 8)
     # ---------------- R-CLIP / R-SLOT per implementation
     NARROW = ("intersect_bbox", "intersect_pyramid", "clone", "intersect", "to_owned")
     D4 = ("flip_y", "swap_xy")
